@@ -593,6 +593,7 @@ pub fn c08(run: &mut Run) {
         run.require_label("c08_sentinel", l, 0.05);
     }
     mv_core::c_animator::c08_animator(run);
+    crate::fuzzdrv::campaign(run, "fz_c08", 1_600_000);
 }
 
 // =============================================================================================
